@@ -916,8 +916,6 @@ class MainTransformer(object):
         # is used to mark the parameter that contains the user data; it is
         # weirdly represented in the GIR and typelib by setting the
         # param.closure_name field to itself
-        param.closure_name = param.argname
-
         target = self._transformer.lookup_typenode(param.type)
         target = self._transformer.resolve_aliases(target)
         if not isinstance(target, ast.Type):
@@ -925,6 +923,9 @@ class MainTransformer(object):
 
         if target != ast.TYPE_ANY:
             message.warn('invalid "closure" annotation: only valid on gpointer parameters', annotations.position)
+            return
+
+        param.closure_name = param.argname
 
     def _apply_annotations_param(self, parent, param, tag, block):
         if isinstance(parent, (ast.Function, ast.VFunction)):
